@@ -89,13 +89,16 @@ template <class Q, class T> inline void put(T* p, const Q& q) {
 
 
 class Wrapper:
-    __slots__ = ('name', 'in_ty', 'n_in', 'out_ty', 'n_out', 'n_iout', 'body', 'meta', 'ir_name', 'n_iin')
+    __slots__ = ('name', 'in_ty', 'n_in', 'out_ty', 'n_out', 'n_iout', 'body', 'meta', 'ir_name', 'n_iin', 'flatten')
 
-    def __init__(self, name, in_ty, n_in, out_ty, n_out, body, n_iout=0, meta=None, n_iin=0):
+    def __init__(self, name, in_ty, n_in, out_ty, n_out, body, n_iout=0, meta=None, n_iin=0, flatten=True):
         self.name, self.in_ty, self.n_in, self.out_ty, self.n_out = name, in_ty, n_in, out_ty, n_out
-        self.body, self.n_iout, self.meta, self.n_iin = body, n_iout, meta or {}, n_iin
+        self.body, self.n_iout, self.meta, self.n_iin, self.flatten = body, n_iout, meta or {}, n_iin, flatten
 
     def source(self):
+        if not self.flatten:
+            return 'extern "C" void %s(const %s* in, %s* out, long* iout, const long* iin) {\n%s\n}\n' % (
+                self.name, CTYPE[self.in_ty], CTYPE[self.out_ty], self.body)
         return 'extern "C" PHQV_FLATTEN void %s(const %s* in, %s* out, long* iout, const long* iin) {\n%s\n}\n' % (
             self.name, CTYPE[self.in_ty], CTYPE[self.out_ty], self.body)
 
@@ -253,9 +256,19 @@ def input_terms(w, prefix='x'):
     return [tm.arg(w.in_ty, '%s%d' % (prefix, i)) for i in range(w.n_in)]
 
 
-def execute_wrapper(mod, w, summaries=None, inputs=None, prefix='x'):
+def execute_wrapper(mod, w, summaries=None, inputs=None, prefix='x', init_tables=None):
+    """init_tables: None = no dynamic initialisers are run first; 'all' or a set of global names = run those table
+    initialisers (in llvm.global_ctors order) in the same state before the wrapper"""
     ex = Executor(mod, summaries)
     st = State()
+    if init_tables is not None:
+        from .irsym import summaries as SM
+        try:
+            st, _ = SM.run_initialisers(ex, st, None if init_tables == 'all' else init_tables)
+        except Unsupported as e:
+            res = WrapperResult()
+            res.error = 'unsupported (table initialiser): %s' % e
+            return res
     isz = FSIZE[w.in_ty]
     osz = FSIZE[w.out_ty]
     rin = st.new_region(max(1, w.n_in) * isz, 'arg', 'in')
